@@ -125,8 +125,46 @@ func runC18(r *Run) {
 			perFn[s.fi]++
 		}
 	}
+	// a toucher whose only caller in the module is another toucher is that one's helper (`readFile(fsys,
+	// name)` called by the gate): the gate is the caller, the helper's sites are judged with it
+	callersOf := map[*types.Func]map[*types.Func]bool{}
+	for _, rel := range []string{"", "internal/compiler", "ast", "ast/astutil"} {
+		for _, fi := range r.P.Funcs(rel) {
+			if r.P.isTestFile(fi.File) || fi.Obj == nil {
+				continue
+			}
+			for _, c := range calls(fi.Decl.Body, true) {
+				if f := callee(fi.Pkg.TypesInfo, c); f != nil {
+					if callersOf[f] == nil {
+						callersOf[f] = map[*types.Func]bool{}
+					}
+					callersOf[f][fi.Obj] = true
+				}
+			}
+		}
+	}
+	helperOf := map[*FuncInfo]*FuncInfo{}
+	for fi := range perFn {
+		if cs := callersOf[fi.Obj]; len(cs) == 1 {
+			for c := range cs {
+				for g := range perFn {
+					if g.Obj == c && g.Obj != fi.Obj {
+						helperOf[fi] = g
+					}
+				}
+			}
+		}
+	}
+	weight := map[*FuncInfo]int{}
 	for fi, n := range perFn {
-		if x.gate == nil || n > perFn[x.gate] || (n == perFn[x.gate] && fi.Name() < x.gate.Name()) {
+		if g := helperOf[fi]; g != nil && helperOf[g] == nil {
+			weight[g] += n
+		} else {
+			weight[fi] += n
+		}
+	}
+	for fi, n := range weight {
+		if x.gate == nil || n > weight[x.gate] || (n == weight[x.gate] && fi.Name() < x.gate.Name()) {
 			x.gate = fi
 		}
 	}
@@ -168,6 +206,36 @@ func runC18(r *Run) {
 		switch {
 		case !reach[s.fi.Obj]:
 			o.Trivial("not reachable from %s over the module's call graph (program loading), outside template building", funcKey(entry.Obj))
+		case s.fi != x.gate && helperOf[s.fi] == x.gate:
+			// in a helper called only by the gate: applied to the helper's unmodified parameter, which the
+			// gate fills with its own unmodified name parameter
+			hinfo := s.fi.Pkg.TypesInfo
+			hobj := cgxObj(hinfo, s.name)
+			hidx := -1
+			hsig := s.fi.Obj.Type().(*types.Signature)
+			for i := 0; i < hsig.Params().Len(); i++ {
+				if types.Object(hsig.Params().At(i)) == hobj {
+					hidx = i
+				}
+			}
+			passed := hidx >= 0
+			for _, gc := range calls(x.gate.Decl.Body, true) {
+				if callee(x.gate.Pkg.TypesInfo, gc) == s.fi.Obj {
+					if hidx < 0 || hidx >= len(gc.Args) || cgxObj(x.gate.Pkg.TypesInfo, gc.Args[hidx]) != x.gateArg {
+						passed = false
+					}
+				}
+			}
+			switch {
+			case s.name == nil || hidx < 0:
+				o.Bad("%s in %s, a helper of the gate, is not applied to a parameter of the helper", s.what, funcKey(s.fi.Obj))
+			case len(cgxAssignsTo(hinfo, s.fi.Decl.Body, hobj)) > 0 || gateParamAssigned:
+				o.Bad("the name is reassigned on its way from the gate to %s in %s", s.what, funcKey(s.fi.Obj))
+			case !passed:
+				o.Bad("the gate does not pass its name parameter %s unchanged to its helper %s", x.gateArg.Name(), funcKey(s.fi.Obj))
+			default:
+				o.OK("in %s, a helper called only by the gate, applied to its unmodified parameter %s, which the gate fills with its unmodified name parameter %s", funcKey(s.fi.Obj), hobj.Name(), x.gateArg.Name())
+			}
 		case s.fi != x.gate:
 			o.Bad("file system touched outside the gate %s: %s in %s is reachable from %s", funcKey(x.gate.Obj), s.what, funcKey(s.fi.Obj), funcKey(entry.Obj))
 		case s.name == nil:
